@@ -115,3 +115,11 @@ func (vm *Thread) VerifCallFunction(argc int) {
 func (vm *Thread) VerifReturn() { vm.restoreLastFrame() }
 
 func (vm *Thread) VerifGrowValueStack() { vm.growValueStack() }
+
+// callBytecodeFunctionTCO: the current frame is reused. `vm.localCount` (the number of slots the
+// frame registered, which the VM pops) is set to what the compiler guarantees at a tail-call
+// site: everything in the frame below the receiver and the arguments.
+func (vm *Thread) VerifTailCallFunction(argc int) {
+	vm.localCount = (vm.VerifSpBytes()-vm.VerifFpBytes())/int(value.ValueSize) - (argc + 1)
+	vm.callBytecodeFunctionTCO(verifDummyFunction(argc), argc)
+}
